@@ -4,6 +4,16 @@ use crate::*;
 pub const BIGINT_MAX_BITS: u64 = 8 * 100_000_000;
 
 
+#[cfg(hlorenzi_customasm_verif)]
+impl BigInt
+{
+    pub fn verif_to_decimal(&self) -> String
+    {
+        self.bigint.to_string()
+    }
+}
+
+
 #[derive(Clone, Eq)]
 pub struct BigInt
 {
